@@ -8,6 +8,7 @@ PROPS = {
         level="proof",
         rule="documents from the token grammar of harness/gen_doc.go (tags with 0-5 attributes in all value forms, comments, CDATA, doctype, raw-text elements with '<' inside, spaced/partial close tags, any-plane text, 7 prefix/raw-text configurations) plus a 20% malformed stream; a case is non-trivial when it is rejected or yields at least one tag token; distinct = distinct case lines",
         streams=[dict(name="scan", family="scan", quick=3000, thorough=200000, nontrivial=r"^ERR|\(Tag "),
+                 dict(name="tokseq", family="tokseq", quick=3000, thorough=200000, nontrivial=r"\(Tag "),
                  dict(name="code", family="code", quick=2000, thorough=100000, nontrivial=r"^ERR|CodeValue")],
         trusted_base=TB_SCAN,
         modelled=["html/scan_base.go", "html/scan_html.go", "html/scan_code.go (expression acceptance = exp model)"],
@@ -172,5 +173,13 @@ PROPS["C08"] = dict(level="proof", allowed_axioms=FLOCQ_AXIOMS,
     level_text="PARTIAL. Theorems: every partial operation of the Go code (integer division, shifts, indexing, slicing, nil dereference, calls into panicking / mis-typed user functions, non-boolean conditions, end of input inside a tag, stray close tags) is a guarded total operation of the model whose failure is an error value, and the models are total functions; that the implementation itself never panics is established by the correspondence streams (a PANIC outcome never matches the model) and by fuzzing every entry point with random bytes and hostile data.",
     level_note="No theorem speaks about the Go runtime: implementation-level panic freedom is exploration (differential + fuzz), incl. invalid UTF-8 which is outside the model's input type.",
     technique="Coq theorems on the model's guards + differential correspondence + in-process fuzzing under recover")
+
+# Properties whose statement fixes the compared observable (output / result / error class): when the
+# implementation disagrees with the model - which provably satisfies the property - on a generated
+# input, that input is a concrete input on which the behaviour the property describes has changed, and
+# it is reported as the replay (the brief: "the disagreeing case if the disagreement is on an observable
+# the property fixes").  For the others a bare disagreement is reported with no-failing-input-found.
+for _pid in ["C01", "C03", "C04", "C05", "C06", "C07", "C09", "C10", "C11", "C12", "C13", "C14", "C16", "C17", "C18", "C19", "C20", "C02"]:
+    PROPS[_pid]["functional"] = True
 
 NOT_YET = {}
